@@ -1,0 +1,58 @@
+//go:build verif
+
+// Verification-only exports (build tag verif): a memberlist-free Peer so that the real delegate's
+// receive path (NotifyMsg / LocalState / MergeRemoteState / GetBroadcasts) can be driven directly.
+// This file only adds code; nothing here is compiled without the tag.
+
+package cluster
+
+import (
+	"log/slog"
+
+	"github.com/prometheus/client_golang/prometheus"
+)
+
+// NewPeerForVerif returns a Peer that has a states map, a stop channel and a real delegate, but no
+// memberlist. Methods that need the memberlist (Name, Self, Position, Peers, Leave, ...) must not be
+// called on it, and reg must never be gathered (the delegate's gauge funcs read the memberlist).
+func NewPeerForVerif(reg prometheus.Registerer, l *slog.Logger) *Peer {
+	p := &Peer{
+		states: map[string]State{},
+		stopc:  make(chan struct{}),
+		readyc: make(chan struct{}),
+		logger: l,
+		peers:  map[string]peer{},
+	}
+	p.register(reg, "verif")
+	p.delegate = newDelegate(l, reg, p, 3)
+	// newDelegate wires NumNodes to p.ClusterSize, which dereferences the memberlist.
+	p.delegate.bcast.NumNodes = func() int { return 1 }
+	return p
+}
+
+// DelegateForVerif exposes the peer's delegate (the object memberlist calls back into).
+func (p *Peer) DelegateForVerif() *delegate { return p.delegate }
+
+// StopForVerif ends the goroutines started for this peer (delegate queue pruning, channels of AddState).
+func (p *Peer) StopForVerif() { close(p.stopc) }
+
+// StateKeysForVerif lists the registered state keys (unordered).
+func (p *Peer) StateKeysForVerif() []string {
+	p.mtx.RLock()
+	defer p.mtx.RUnlock()
+	ks := make([]string, 0, len(p.states))
+	for k := range p.states {
+		ks = append(ks, k)
+	}
+	return ks
+}
+
+// Thin wrappers so that callers outside the package need not name the unexported delegate type.
+func (p *Peer) NotifyMsgForVerif(b []byte)          { p.delegate.NotifyMsg(b) }
+func (p *Peer) LocalStateForVerif(join bool) []byte { return p.delegate.LocalState(join) }
+func (p *Peer) MergeRemoteStateForVerif(b []byte, join bool) {
+	p.delegate.MergeRemoteState(b, join)
+}
+func (p *Peer) GetBroadcastsForVerif(overhead, limit int) [][]byte {
+	return p.delegate.GetBroadcasts(overhead, limit)
+}
